@@ -32,6 +32,7 @@ import (
 	"os"
 	"os/exec"
 	"path/filepath"
+	"regexp"
 	"sort"
 	"strconv"
 	"strings"
@@ -224,7 +225,7 @@ const (
 )
 
 // classifyKnown decides whether a property failure is exactly one of the listed findings.
-func classifyKnown(req request, class string, msg string) string {
+func classifyKnown(req request, class string, msg string, alloc uint64) string {
 	n := len(req.In1)
 	switch req.Dec {
 	case dReadTXTRegs:
@@ -253,18 +254,81 @@ func classifyKnown(req request, class string, msg string) string {
 			return kDecrypt
 		}
 	case dPolicyData:
-		if class == "Panic" && strings.Contains(msg, "makeslice: len out of range") {
+		if class == "Panic" && strings.Contains(msg, "makeslice: len out of range") && hasShortCustomHeader(req.In1) {
 			return kLCPCustom
 		}
-		if class == "Alloc" {
+		if class == "Alloc" && fieldExplainsAlloc(req.Dec, req.In1, msg, alloc) {
 			return kLCPAlloc
 		}
 	case dACMInfo, dParseACM:
-		if class == "Alloc" {
+		if class == "Alloc" && fieldExplainsAlloc(req.Dec, req.In1, msg, alloc) {
 			return kACMAlloc
 		}
 	}
 	return ""
+}
+
+// signature of C15-LCP-custom-size-panic: somewhere in the input there is an
+// element header (Size, Type) with Type = 3 (custom) and Size < 32
+func hasShortCustomHeader(in []byte) bool {
+	for o := 0; o+8 <= len(in); o++ {
+		if binary.LittleEndian.Uint32(in[o:]) < 32 && binary.LittleEndian.Uint32(in[o+4:]) == 3 {
+			return true
+		}
+	}
+	return false
+}
+
+var oomBlock = regexp.MustCompile(`cannot allocate (\d+)-byte block`)
+
+// signature of the two allocation findings: the block the runtime could not
+// get, or the total allocated by a call that returned, is what ONE 32-bit
+// little-endian word of the input asks for -- word x 48 (parsePolicyList2
+// elements), word - 32 (custom element data), word x 16 / x 24 (ACM chipset /
+// processor lists), word x 4 (ACM header Size, fiano) -- once, or twice for
+// make() plus the scratch buffer of binary.Read.  Any other way of allocating
+// out of proportion (e.g. a loop that keeps appending) is not a listed finding.
+func fieldExplainsAlloc(dec int, in []byte, msg string, total uint64) bool {
+	type cand struct{ mul, sub uint64 }
+	var cs []cand
+	switch dec {
+	case dPolicyData:
+		cs = []cand{{48, 0}, {1, 32}}
+	case dACMInfo, dParseACM:
+		cs = []cand{{16, 0}, {24, 0}, {4, 0}}
+	}
+	var block uint64
+	if m := oomBlock.FindStringSubmatch(msg); m != nil {
+		block, _ = strconv.ParseUint(m[1], 10, 64)
+	} else if strings.HasPrefix(msg, "child died") {
+		return false
+	}
+	slack := uint64(1<<20 + allocPerByte*len(in))
+	for o := 0; o+4 <= len(in); o++ {
+		v := uint64(binary.LittleEndian.Uint32(in[o:]))
+		for _, c := range cs {
+			if v < c.sub {
+				continue
+			}
+			want := (v - c.sub) * c.mul
+			if want < 16<<20 {
+				continue
+			}
+			if block != 0 {
+				// the runtime reports the request rounded up to whole 4 MiB arena chunks
+				if (want+(4<<20)-1)/(4<<20)*(4<<20) == block || (want+8191)/8192*8192 == block {
+					return true
+				}
+				continue
+			}
+			for _, k := range []uint64{1, 2} {
+				if total >= k*want && total <= k*want+slack {
+					return true
+				}
+			}
+		}
+	}
+	return false
 }
 
 // ---------------------------------------------------------------- harness state
@@ -465,7 +529,7 @@ func (h *H) one(kind string, req request, recipe string) {
 		return
 	}
 	what := fmt.Sprintf("%s: %s on a %d-byte input: %s", name, class, len(req.In1), msg)
-	if k := classifyKnown(req, class, msg); k != "" {
+	if k := classifyKnown(req, class, msg, rep.Alloc); k != "" {
 		h.known[k]++
 		c.OracleFailKnown(ci, k, what, name, descr)
 		return
